@@ -142,7 +142,7 @@ class Node:
     def qubit_channels(self) -> List[tuple]:
         """(qubit, channel-name) pairs this step occupies, from the *program*."""
         k = self.kind
-        if k[0] in ('W', 'R'):
+        if k[0] in ('W', 'R', 'WI'):
             return [(k[1], k[2])]
         if k[0] == 'V':
             return [(k[2], k[3] if k[1] != 'SingleQubitOperation' else 'ALL')]
@@ -251,6 +251,11 @@ def _make_leaf(ctx, node: Node, circuit: DeclarativeCircuit, relation, built: Bu
         if k[1] == 'VirtualTwoQubitVacant':
             return cls(k[2][0], k[2][1], qubit_channel=CH[k[3]], duration_strategy=FixedDurationStrategy(node.dur), **kw)
         return cls(k[2][0], k[2][1], duration_strategy=FixedDurationStrategy(node.dur), **kw)
+    if k[0] == 'WI':
+        # Wait whose fixed duration is a small symbolic *integer* (the OpenQL wait factory applies int())
+        node.dur = ctx.int_('n_' + node.label().replace('.', '_'), lo=0, hi=3)
+        built.durs[node.label()] = node.dur
+        return co.Wait(k[1], qubit_channel=CH[k[2]], duration_strategy=FixedDurationStrategy(node.dur), **kw)
     if k[0] == 'R':
         # Wait whose duration is looked up in a DurationRegistry (value symbolic, may be changed later by the history)
         key = 'key_' + node.label().replace('.', '_')
